@@ -192,13 +192,16 @@ Section Chain.
     | Base.OutOfFuel => DRFuel stage_lift
     end.
 
-  (* what remains a hypothesis about a body handed to lifting, all of it decidable
-     and evaluated by the driver on every explored definition:
+  (* what remains a hypothesis about a body handed to lifting, both decidable and
+     evaluated by the driver on every explored definition:
        names_distinct   see above;
-       stmt_lits_ok     see above;
-       ssa_output_ok    the graph the SSA construction returns, when it returns one, has
-                        one defining assignment per local -- the second hypothesis of
-                        C20_propagate_completes *)
+       stmt_lits_ok     see above.
+     (Until the second audit there was a third clause, [ssa_output_ok]: the graph the SSA
+     construction returns has one defining assignment per local -- the second hypothesis
+     of C20_propagate_completes, assumed of the mirror's own output.  It is now DERIVED
+     from C14's construction theorems, Proofs.SsaLocalDefs.into_ssa_ldefs_unique and
+     C01_chain_ssa_output_unique_local_defs; the function stays here because the driver
+     still evaluates it, as a cross-check of that theorem.) *)
   Definition ssa_output_ok (d : definition) (body : Ast.statement) : bool :=
     match LiftFull.lift_to_ir (d_kind d) (d_params d) (d_pfile d) (d_ploc d) body with
     | Base.Ok c =>
@@ -210,7 +213,7 @@ Section Chain.
     end.
 
   Definition body_ok (d : definition) (body : Ast.statement) : bool :=
-    names_distinct (d_params d) (d_pfile d) (d_ploc d) body && stmt_lits_ok body && ssa_output_ok d body.
+    names_distinct (d_params d) (d_pfile d) (d_ploc d) body && stmt_lits_ok body.
 
   Definition analyse_template (env : list (string * Desugar.template_info)) (lib : list (list N))
              (t : definition) : def_result :=
